@@ -482,4 +482,38 @@ def SchedLit.keyLit (s : SchedLit) (ephemeral ringDiffers conjInv : Bool) : KeyL
 def KeyRec.sufficient (s : SchedLit) (k : KeyRec) : Prop :=
   neededLevelQ s k.name ≤ k.levelQ ∧ ∀ lp, neededLevelP s k.name = some lp → k.levelP = lp
 
+/-! ## 8. Scale schedule constants of `Evaluator.initialize` (exact powers of two / rationals) -/
+
+/-- `math.Round(math.Log2(float64(q)))` for `q ≥ 1`: the exponent `e` with `2^(e-1/2) ≤ q < 2^(e+1/2)`,
+    decided on integers by comparing `q²` with `2^(2·⌊log2 q⌋+1)` (no integer square is an odd power
+    of two, so there is no tie). -/
+def roundLog2 (q : Nat) : Nat :=
+  let e := Nat.log2 q
+  if 2 ^ (2 * e + 1) ≤ q * q then e + 1 else e
+
+/-- what determines the constants: `Q[0]`, `EvalModLogScale` (`Mod1Parameters.ScalingFactor() = 2^…`),
+    `LogMessageRatio`, the bootstrapping `LogDefaultScale`, `K`, conjugate-invariant residual ring. -/
+structure ScaleLit where
+  q0 : Nat
+  evalModLogScale : Nat
+  logMessageRatio : Nat
+  logDefaultScale : Nat
+  k : Nat
+  conjInv : Bool
+deriving Repr, DecidableEq
+
+/-- `-log2 qDiv` where `qDiv = min(1, ScalingFactor / 2^round(log2 Q[0]))`: the part of the division by
+    `Q[0]` that cannot be done by scale manipulation and is folded into the CoeffsToSlots matrices;
+    `0` as soon as `EvalModLogScale ≥ round(log2 Q[0])`. -/
+def ScaleLit.qDivNegLog (l : ScaleLit) : Nat := roundLog2 l.q0 - l.evalModLogScale
+
+/-- `C2SScaling = qDiv / (K · qDiff)` with `qDiff = Q[0] / 2^round(log2 Q[0])`, as the exact fraction
+    `2^(round(log2 Q[0]) - qDivNegLog) / (K · Q[0])` (the code evaluates it in float64). -/
+def ScaleLit.c2sScaling (l : ScaleLit) : Nat × Nat := (2 ^ (roundLog2 l.q0 - l.qDivNegLog), l.k * l.q0)
+
+/-- `log2 StCScaling`, `StCScaling = DefaultScale / (ScalingFactor / MessageRatio)`, halved when the residual
+    ring is conjugate invariant (`SlotsToCoeffsParameters.Scaling = 0.5` in `NewEvaluator`). -/
+def ScaleLit.s2cScalingLog (l : ScaleLit) : Int :=
+  (l.logDefaultScale : Int) + l.logMessageRatio - l.evalModLogScale - (if l.conjInv then 1 else 0)
+
 end Lattigo.Model.Bootstrap
